@@ -36,10 +36,11 @@ macro_rules! for_all_types {
 			BinaryHeap<u8>, BinaryHeap<u32>, BinaryHeap<(u8, u16)>, BinaryHeap<Vec<u8>>,
 			BTreeSet<u8>, BTreeSet<u32>, BTreeSet<Vec<u8>>, BTreeSet<(u8, bool)>, BTreeSet<String>, BTreeSet<Option<u16>>,
 			BTreeMap<u8, u8>, BTreeMap<u32, Vec<u8>>, BTreeMap<String, u16>, BTreeMap<(u8, u8), Option<bool>>, BTreeMap<u16, BTreeMap<u8, bool>>,
-			BTreeMap<Compact<u32>, Box<u16>>,
+			BTreeMap<Compact<u32>, Box<u16>>, BTreeMap<u32, ()>, BTreeMap<u8, PhantomData<u16>>, BTreeMap<u16, UnitS>, BTreeSet<(u8, ())>,
 			// arrays
 			[u8; 0], [u8; 1], [u8; 3], [u8; 32], [u8; 33], [u16; 2], [u32; 3], [u64; 2], [u128; 2], [i16; 3], [f32; 2],
 			[bool; 3], [Vec<u8>; 2], [Option<u8>; 3], [(u8, u16); 2], [[u8; 2]; 3], [[bool; 2]; 2], [Nt; 2], [(); 3], [String; 2], [Box<u16>; 2],
+			[OptionBool; 3], [Compact<u8>; 2], [Option<bool>; 4], [Disc; 2], [Option<u32>; 2], [(u8, u32); 3], [Compact<u32>; 3], [NonZeroU8; 2], [i8; 5],
 			// tuples
 			(u8,), (u8, u16), (u8, u16, u32), (bool, Vec<u8>, String), (Vec<u16>, Vec<u8>), (Option<u8>, Result<u8, u8>, ()),
 			(u8, u16, u32, u64), ((u8, u16), (bool, u8)), (Compact<u32>, Compact<u64>), (Vec<u8>, u8, Vec<u8>, u8, bool),
@@ -54,6 +55,7 @@ macro_rules! for_all_types {
 			S1, S2, UnitS, Nt, Cp, Sk, E1, Disc, G<u8>, G<Vec<u16>>, G<Option<Box<u8>>>, Tr, Box<Tr>, Vec<Tr>, Option<E1>, (E1, Disc), Box<E1>, Vec<Disc>, [Disc; 3], Vec<Cp>, Vec<Sk>,
 			BTreeMap<u8, E1>, Result<E1, S2>,
 			TrC, Box<TrC>, [TrC; 2], Rc<TrC>, Vec<TrC>, TrK, Box<TrK>, Arc<TrK>, [TrK; 3], Option<Box<TrK>>, TrP, Box<TrP>, [TrP; 2], AllSk, Vec<AllSk>, [AllSk; 2], Box<AllSk>, (AllSk, u8),
+			LinkedList<AllSk>, VecDeque<AllSk>, Unit1, Vec<Unit1>, [Unit1; 3], Box<Unit1>, Rc<Unit1>, (Unit1, u8), Option<Unit1>, BTreeMap<u8, Unit1>, TrE, Box<TrE>, Arc<TrE>, [TrE; 2], Vec<TrE>, (Box<TrE>, u8), OneV, OneSk, Vec<OneV>, Box<OneSk>,
 			// deeper nestings
 			Vec<Vec<Vec<Vec<u8>>>>, Vec<Box<Vec<Box<u8>>>>, Vec<BTreeMap<u8, Vec<u8>>>, BTreeMap<u8, Vec<BTreeSet<u8>>>, LinkedList<VecDeque<Vec<u16>>>,
 			Option<Vec<Option<Vec<Option<u8>>>>>, Box<Vec<Box<Vec<Box<u8>>>>>, (Vec<Vec<u8>>, Box<Vec<u8>>, BTreeSet<u8>)
